@@ -50,14 +50,34 @@ impl Interface {
     }
 
     pub fn all_base_interfaces(&self) -> Vec<&Interface> {
-        let mut all_bases = self.base_interfaces();
-        all_bases.extend(self.bases.iter().flat_map(|type_ref| type_ref.all_base_interfaces()));
+        // Computes the (de-duplicated) list of an interface's bases, followed by all the bases of each of those bases.
+        // The results are cached per interface; otherwise an interface that's inherited through many different paths
+        // (diamond inheritance) would be expanded once for each path, and the number of paths can grow exponentially.
+        fn all_bases_of<'a>(
+            interface: &'a Interface,
+            cache: &mut std::collections::HashMap<String, Vec<&'a Interface>>,
+        ) -> Vec<&'a Interface> {
+            let identifier = interface.parser_scoped_identifier();
+            if let Some(cached_bases) = cache.get(&identifier) {
+                return cached_bases.clone();
+            }
+            // While an interface is being expanded it counts as having no bases, so that this always terminates.
+            cache.insert(identifier.clone(), Vec::new());
 
-        // Filter duplicates created by diamond inheritance in-place.
-        let mut seen_identifiers = std::collections::HashSet::new();
-        all_bases.retain(|base| seen_identifiers.insert(base.parser_scoped_identifier()));
+            let mut all_bases = interface.base_interfaces();
+            for base in interface.base_interfaces() {
+                all_bases.extend(all_bases_of(base, cache));
+            }
 
-        all_bases
+            // Filter duplicates created by diamond inheritance in-place.
+            let mut seen_identifiers = std::collections::HashSet::new();
+            all_bases.retain(|base| seen_identifiers.insert(base.parser_scoped_identifier()));
+
+            cache.insert(identifier, all_bases.clone());
+            all_bases
+        }
+
+        all_bases_of(self, &mut std::collections::HashMap::new())
     }
 }
 
